@@ -63,3 +63,7 @@ pub fn def() -> CheckDef {
         sections: vec![Box::new(PropSection { name: "transparent", rule: "compressed == plain == model", strategy, cases: (40_000, 600_000), check })],
     }
 }
+
+pub fn check_pub(input: &Sharing, case: &mut Case) -> Result<(), Fail> {
+    check(input, case)
+}
